@@ -514,6 +514,21 @@ def checkTypesF (T : Table) : Nat → List Str → Str → List Str × Except Re
 def checkTypes (T : Table) (n : Str) : Except Refusal Unit :=
   (checkTypesF T (2 * T.length + 2) [] n).2
 
+/-- One plugin load (`PGSchema.check_plugin`, `pg.py:158`): `check_types(n)` *without* `recheck`,
+i.e. starting from the `__types_checked__` marks that the earlier loads of the process left
+behind (`core.py:369-371`: a marked class returns at once; the mark is set before the class is
+examined and stays when the examination raises). Returns the marks afterwards and the outcome. -/
+def loadPlugin (T : Table) (marks : List Str) (n : Str) : List Str × Except Refusal Unit :=
+  checkTypesF T (2 * T.length + 2) marks n
+
+/-- plugin loads one after the other: final marks and the outcome of every load -/
+def loadAll (T : Table) : List Str → List Str → List Str × List (Except Refusal Unit)
+  | marks, [] => (marks, [])
+  | marks, n :: ns =>
+    let r := loadPlugin T marks n
+    let rest := loadAll T r.1 ns
+    (rest.1, r.2 :: rest.2)
+
 /-! ## effective schema of a class as a codec type -/
 
 /-- fields of the pydantic model in `__fields__` order without the constants:
